@@ -102,6 +102,21 @@ func c14Database(run *PropRun) {
 		run.AddObligation(fmt.Sprintf("termdb[%s]/colors-consistent", nm), "table", BoolT(okc && colors >= 0),
 			fmt.Sprintf("%s: Colors=%d is zero exactly when there are no setaf/setab strings (setaf=%q setab=%q)", nm, colors, setaf, setab))
 		n += 2
+		// the colour count is what TColor elides against: an entry whose setaf/setab are the indexed 256-colour programs
+		// (38;5;N / 48;5;N) has no palette entries beyond 255, whatever else it can do through the RGB strings
+		{
+			indexed := strings.Contains(setaf, "38;5;%p1%d") && !strings.Contains(setaf, "38;2") && !strings.Contains(setaf, "65536") && !strings.Contains(setaf, "38:2")
+			g := run.AddObligation(fmt.Sprintf("termdb[%s]/colour-count-matches-palette-strings", nm), "table", BoolT(!indexed || colors <= 256),
+				fmt.Sprintf("%s: Colors=%d with the indexed 256-colour setaf %q - an index beyond 255 is out of range for these strings and has to be elided by TColor", nm, colors, setaf))
+			g.ReplayGo = replayTest("tcell", []string{"strings", modPath + "/terminfo", "_ " + modPath + "/terminfo/extended"}, fmt.Sprintf(`
+	ti, err := terminfo.LookupTerminfo(%q)
+	if err != nil { fail("lookup: %%v", err); return }
+	if out := ti.TColor(300, -1); strings.Contains(out, ";5;300") {
+		fail("%%s: TColor(300,-1) = %%q selects palette entry 300 of a 256-entry palette (Colors = %%d)", ti.Name, out, ti.Colors)
+		return
+	}`, nm))
+			n++
+		}
 		for i := 0; i < db.TI.NumFields(); i++ {
 			f := db.TI.Field(i)
 			if !isString(f.Type()) || strings.HasPrefix(f.Name(), "Key") {
